@@ -53,6 +53,10 @@ structure Params where
   perKeyObject : Bool
   /-- the client calls createNewSession after readFinished (F16 repaired) -/
   storeAfterFinished : Bool
+  /-- loadSession offers a session only if its recorded certificates verify under the current
+  configuration (F13 repaired); in this model every real server identity verifies and a
+  session without certificates does not -/
+  verifyOnLoad : Bool
   /-- cipherSuitesPreferenceOrder -/
   prefOrder : List Nat
   /-- suites that need a client key pair (the client of this model has none) -/
@@ -62,7 +66,7 @@ deriving Repr
 
 inductive Pre where
   | junk (k : Nat)     -- k Puts of unrelated fresh sessions under fresh keys
-  | forge              -- Put(dst, session with an identifier no server issued)
+  | forge (certs : Bool)  -- Put(dst, session with an identifier no server issued [+ the server's certificates])
   | stale (d : Nat)    -- Put(dst, copy of what Get(destination d) returns, unless it is wiped)
   | dropServer         -- the server's cache is replaced by an empty one
 deriving Repr, DecidableEq
@@ -129,22 +133,22 @@ def init (defaultCap : Nat) (ccap scap : Int) : World :=
 /-! ### harness actions before a connection -/
 
 /-- a session made up by the harness: fresh identifier, fresh secret, no certificates -/
-def madeUp (p : Params) (src : Nat → Nat) (w : World) (suite : Nat) : World × Session :=
+def madeUp (p : Params) (src : Nat → Nat) (w : World) (suite : Nat) (peer : Option Nat) : World × Session :=
   ({ w with nId := w.nId + 1, nSec := w.nSec + 1 },
-   { id := src w.nId, vers := p.version, suite := suite, ms := w.nSec, peer := none })
+   { id := src w.nId, vers := p.version, suite := suite, ms := w.nSec, peer := peer })
 
 def junkPuts (p : Params) (src : Nat → Nat) (suite : Nat) (w : World) : Nat → World
   | 0 => w
   | k + 1 =>
-    let (w1, s) := madeUp p src w suite
+    let (w1, s) := madeUp p src w suite none
     let (w2, o) := alloc w1 s
     let w3 := cput p { w2 with nJunk := w2.nJunk + 1 } (junkKey w2.nJunk) (some o)
     junkPuts p src suite w3 k
 
 def runPre (p : Params) (src : Nat → Nat) (c : Conn) (w : World) : Pre → World
   | .junk k => junkPuts p src (c.csuites.headD 0) w k
-  | .forge =>
-    let (w1, s) := madeUp p src w (c.csuites.headD 0)
+  | .forge certs =>
+    let (w1, s) := madeUp p src w (c.csuites.headD 0) (if certs then some c.server else none)
     let (w2, o) := alloc w1 s
     cput p w2 (dstKey c.dst) (some o)
   | .stale d =>
@@ -195,12 +199,13 @@ def cleanup (p : Params) (w : World) (d : Nat) : Option ObjId → World
   | some o => cput p (cput p w (dstKey d) none) (idKey (w.heap o).id) none
   | none => w
 
-/-- loadSession: `Get(dst)`; a nil state counts as a miss -/
-def loadSession (w : World) (d : Nat) : World × Option ObjId :=
+/-- loadSession: `Get(dst)`; a nil state counts as a miss; (after the F13 repair) a session
+whose recorded certificates do not verify is not used -/
+def loadSession (p : Params) (w : World) (d : Nat) : World × Option ObjId :=
   let (cl, out) := LRU.get w.client (dstKey d)
   ({ w with client := cl },
    match out with
-   | .got (some o) true => some o
+   | .got (some o) true => if p.verifyOnLoad && (w.heap o).peer.isNone then none else some o
    | _ => none)
 
 /-- checkForResumption: lookup by the offered identifier, then version, then "the client still
@@ -226,7 +231,7 @@ def connect (p : Params) (src : Nat → Nat) (w0 : World) (c : Conn) : World × 
   let off := offer p c.csuites
   let full := pickSuite p c.ssuites off
   -- client: loadSession, ClientHello (client random); server random
-  let (w1, loaded) := loadSession w0 c.dst
+  let (w1, loaded) := loadSession p w0 c.dst
   let rnd := (w1.nSec, w1.nSec + 1)
   let w2 := { w1 with nSec := w1.nSec + 2 }
   let offered := loaded.map (fun o => (w2.heap o).id)
